@@ -392,6 +392,8 @@ def _history_relation(ctx, stats):
 
 
 def run(ctx):
+    from vf.gen import registry as _registry  # pylint: disable=import-outside-toplevel
+    _registry.warm()
     examples = 60 if ctx.quick else 1500
     mutants = 40 if ctx.quick else 1000
     budget_s = 100 if ctx.quick else 1500
